@@ -171,6 +171,9 @@ def main(chk: Check):
         shutil.rmtree(base, ignore_errors=True)
         if res["ops"] is None:
             continue
+        for _, what in case["pre"]:
+            if what.startswith("file-same"):
+                kinds["replaced:" + what] = kinds.get("replaced:" + what, 0) + 1
         pts = []
         in_new = set()
         # indices of successful calls lying between a '#new' creation and its rename
